@@ -6,7 +6,8 @@
   * termination: the recursion of `resolve` is never cut short by its fuel (`resolve_terminates`), for every world —
     missing files, foreign files, self-imports and import cycles of any length included; the only hypothesis is that the encapsulation hierarchy of each file is a tree (a rank that
     decreases from a component to its children, which C09 establishes for the object graph);
-  * success is exact along import chains (`units_ok_chain`, `component_ok_chain`): when an item is fetched, the chain of
+  * success is exact for units imports (`units_fetched_iff`: fetched iff a finite derivation `UOk` exists) and, for
+    components, along import chains (`units_ok_chain`, `component_ok_chain`): when an item is fetched, the chain of
     imports that starts at it exists link by link and ends in an entity that is not imported — in particular no chain
     of imports that returns to its start is ever accepted (`self_import_refused`); the full "exactly when every
     transitive import can be satisfied", which also covers the children and the units of the targets, is decided on
@@ -16,6 +17,7 @@
     (`status_iff`).
 -/
 import Cellml.Import.Proofs
+import Cellml.Import.Exact
 namespace Cellml.Props.C07
 open Cellml.Import
 
@@ -117,6 +119,14 @@ theorem component_ok_chain : ∀ (n : Nat) (w : World) (path : List String) (cur
             | some sc =>
               simp only [hf] at h
               exact .step himp hlk hf (ih w _ url sc ⟨us, cs, hlk⟩ (seqR_ok h).1)
+
+/-- **exactness for units imports**: with the fuel of `resolve`, an imported units of the origin is fetched exactly when
+    it has a finite derivation `UOk` — every file on the way is a model and is not a file the descent came through, every
+    referenced units exists, and the import of every target and of every imported child of a target is fetched in turn.
+    (The fuel never turns a possible success into a failure, nor the reverse.) -/
+theorem units_fetched_iff (w : World) (origin : String) (u : UnitsE) :
+    fetchUnits (fuelFor w) w [] origin u = .ok ↔ UOk w [] origin u :=
+  ⟨fetchUnits_sound _ w [] origin u, fun h => fetchUnits_complete w h _ (fuel_units w origin)⟩
 
 /-- a units that imports itself (its own file, its own name) is never fetched, whatever the fuel and the history -/
 theorem self_import_refused (w : World) (f : String) (us : List UnitsE) (cs : List CompE) (u : UnitsE)
